@@ -53,7 +53,10 @@ def compute_intersection(edgeA, edgeB, f_common_normal):
     xiBs = jnp.hstack((xiBs1, jnp.arange(2)))
     gs = jnp.hstack((gs1, gs2))
 
-    xiAgood = jax.vmap(lambda xia, xib: jnp.where((xia >= 0.0) & (xia <= 1.0) & (xib >= 0.0) & (xib <= 1.0), xia, jnp.nan))(xiAs, xiBs)
+    # segment ends that project exactly onto the other segment's ends (conforming meshes) give parametric
+    # coordinates of 0 or 1 up to round-off; accept them, otherwise the overlap flips between full and empty
+    tol = 1e-10
+    xiAgood = jax.vmap(lambda xia, xib: jnp.where((xia >= -tol) & (xia <= 1.0+tol) & (xib >= -tol) & (xib <= 1.0+tol), xia, jnp.nan))(xiAs, xiBs)
     argsMinMax = jnp.array([jnp.nanargmin(xiAgood), jnp.nanargmax(xiAgood)])
 
     return xiAs[argsMinMax], xiBs[argsMinMax], gs[argsMinMax]
